@@ -141,7 +141,7 @@ HANDLER_FRAME = 'final(pos).index_in <= src.len() && final(pos).index_in >= old(
 FN('read_size', props=['C07', 'C12', 'C01'], ret='r',
    requires=[('aux.read_size.pre', 'old(pos).index_in <= src.len() && *old(self) is Size')],
    ensures=[
-       ('aux.read_size.frame', 'final(pos).index_out == old(pos).index_out && ' + HANDLER_FRAME),
+       ('aux.read_size.frame', 'final(pos).index_out == old(pos).index_out && ' + HANDLER_FRAME + ' && (r is Err ==> *final(self) == *old(self))'),
        ('C07.size_line_exact', '''({
             let win = src@.subrange(old(pos).index_in as int, src.len() as int);
             match spec_find_crlf(win) {
@@ -203,7 +203,7 @@ FN('read_data', props=['C07', 'C12', 'C01'], ret='r',
 FN('expect_crlf', props=['C07', 'C12', 'C01'], ret='r',
    requires=[('aux.expect_crlf.pre', 'old(pos).index_in <= src.len() && *old(self) is CrLf')],
    ensures=[
-       ('aux.expect_crlf.frame', 'final(pos).index_out == old(pos).index_out && ' + HANDLER_FRAME),
+       ('aux.expect_crlf.frame', 'final(pos).index_out == old(pos).index_out && ' + HANDLER_FRAME + ' && (r is Err ==> *final(self) == *old(self))'),
        ('C07.crlf_after_data_exact', '''({
             let win = src@.subrange(old(pos).index_in as int, src.len() as int);
             match spec_find_crlf(win) {
@@ -249,7 +249,7 @@ FN('parse_input', props=['C07', 'C12', 'C01'], ret='r',
    ensures=[
        ('aux.parse_input.frame', 'final(dst).len() == old(dst).len()'),
        ('C12.counts', 'r is Ok ==> r->Ok_0.0 <= src.len() && r->Ok_0.1 <= old(dst).len()'),
-       ('aux.parse_input.state_rests', 'r is Ok ==> dechunker_wf(*final(self))'),
+       ('C12.state_rests_even_on_error', 'dechunker_wf(*final(self))'),
        ('C12.copy_in_order', 'r is Ok ==> is_subseq(final(dst)@.subrange(0, r->Ok_0.1 as int), src@.subrange(0, r->Ok_0.0 as int))'),
        ('C07.one_chunk_per_call', 'r is Ok ==> one_segment(src@, final(dst)@, r->Ok_0.0 as int, r->Ok_0.1 as int, *old(self), *final(self))'),
        ('C07.open_chunk_no_skip', '*old(self) is Chunk && r is Ok && r->Ok_0.1 == 0 ==> r->Ok_0.0 == 0 && *final(self) == *old(self)'),
